@@ -25,7 +25,7 @@ from run import Case
 import py2lean
 
 PROPERTY = "C15"
-LEAN_MODULE = "PyOak.Props.C15"
+LEAN_MODULE = "PyOak.Props.C15All"
 THEOREMS = ["PyOak.C15." + t for t in [
     # kernels (about the generated definitions)
     "point_valid_iff", "range_valid_iff", "mkPoint_accepts", "mkRange_accepts", "point_lt_iff", "point_le_iff",
@@ -38,7 +38,27 @@ THEOREMS = ["PyOak.C15." + t for t in [
     "mkMulti_spec", "mkMulti_short", "merge_single", "merge_spec", "merge_ok", "merge_flat_spec", "merge_flat",
     "merge_flat_cases", "add_eq_merge", "add_code_same_source_overlap", "getRaw_code", "add_code_get_raw",
     "slice_getElem?", "slice_length", "add_flat", "concat_nil", "concat_cons", "concat_flat", "specStep_eq_append",
-    "fqn_compose", "fqn_none", "posSet_fqn", "srcSet_fqn", "codePos_fqn", "multi_fqn"]]
+    "fqn_compose", "fqn_none", "posSet_fqn", "srcSet_fqn", "codePos_fqn", "multi_fqn",
+    # Props/C15Total.lean: totality and validity preservation (no `= .ok r` hypothesis)
+    "codeValidList_iff", "codeValid_leaves", "rangeWF_add", "pack_ok", "pack_codeValid", "merge_codeValid",
+    "merge_valid", "add_valid_of_overlaps", "add_fuse", "add_total", "add_codeValid", "add_ok", "concat_total",
+    "concat_codeValid", "concat_ok", "add_inText", "add_inText_fails",
+    # Props/C15Source.lean: == on sources is an equivalence; source of a multi-origin
+    "srcBeq_refl", "srcBeqList_refl", "srcBeq_symm", "srcBeqList_symm", "srcBeq_trans", "srcBeqList_trans",
+    "src_eq_refl", "src_eq_symm", "src_eq_trans", "src_eq_one", "src_eq_one_set", "srcBeqList_iff", "src_eq_set",
+    "mergeable_symm", "mergeable_self", "common_iff_pairwise", "commonSrc_perm", "mkMulti_common", "mkMulti_source",
+    "mkMulti_common_perm", "sourceSet_keeps_duplicates", "merge_source",
+    # Props/C15Concat.lean: concat as a statement about the operand list
+    "add_none_right", "add_none_left", "add_mergeable", "add_unfused", "concat_live_tail", "concat_live", "merge_live",
+    "concat_multi", "concat_fuseFrom", "concat_eq_merge_fuse", "fuseLive_of_not_headFusable", "fuseFrom_length",
+    "fuseLive_length_lt", "fuseFrom_flat", "fuseLive_flat", "concat_eq_merge_iff", "headFusable_adj", "concat_eq_merge",
+    "concat_lists_operands", "concat_lists_fused", "concat_eq_merge_adjacent_fails", "concat_inner_not_fused",
+    # Props/C15Boundary.lean: nested operands; slice / toNat / Python slicing
+    "merge_keeps_nonleaf", "nested_built", "nested_operand_stays_nested", "nested_none_stays", "rangeWF_nonneg",
+    "accepted_range_nonneg", "slice_eq_pySlice", "pySlice_inside", "getRaw_pySlice", "getRaw_constructed",
+    "add_get_raw_pySlice", "slice_negative_fails",
+    # Props/C15Gen.lean: the GENERATED CodeRange.fqn bridged to the hand model
+    "intStr_eq_pyIntStr", "range_fqn_generated", "range_fqn_spec", "code_fqn_generated"]]
 RULE = ("exhaustive: all (index,line,column) on a small grid for point validity, all pairs of points 0..5 for range "
         "validity, all pairs (225) and triples (3375) of valid ranges over points 0..4 for the interval laws, all pairs "
         "(a+b) and triples (merge, concat) over a pool of origins of every kind (NoOrigin, CodeOrigin with "
@@ -57,12 +77,17 @@ TRUSTED = ["py2lean (harness/py2lean.py): Python-AST -> Lean translation of the 
 ASSUMPTIONS = ["laws are stated on indices unconditionally and on == under coherence (equal index => equal point): "
                "results built from points with equal index but different line/column are compared on indices only",
                "multi-origin statements are for flat operands (everything the API produces from flat operands is flat: "
-               "theorems merge_flat / add_flat / concat_flat); user-built nested MultiOrigins are not generated",
-               "get_raw slice is stated for 0 <= start.index <= end.index (the only ranges the constructors accept)"]
+               "theorems merge_flat / add_flat / concat_flat, and without assuming a result merge_valid / add_ok / concat_ok); "
+               "user-built nested MultiOrigins are not generated (boundary marked by merge_keeps_nonleaf / "
+               "nested_operand_stays_nested: a nested operand stays nested, in the model and in the real code)",
+               "get_raw slice is stated for 0 <= start.index <= end.index (the only ranges the constructors accept: "
+               "accepted_range_nonneg; there get_raw = Python's text[start:end], getRaw_pySlice; slice_negative_fails marks "
+               "the outside)"]
 BUDGET = {"quick": 200, "thorough": 1800}
 
 GEN_FILES = ("PyOak/Gen/Origin.lean", "PyOak/Props/C15.lean", "PyOak/Model/Origin.lean", "PyOak/Spec/Origin.lean",
-             "PyOak/Handle/Origin.lean")
+             "PyOak/Handle/Origin.lean", "PyOak/Props/C15Total.lean", "PyOak/Props/C15Source.lean",
+             "PyOak/Props/C15Concat.lean", "PyOak/Props/C15Boundary.lean", "PyOak/Props/C15Gen.lean")
 _state = {"target": None, "prev": None}
 
 
@@ -471,6 +496,18 @@ def raw_case(raw, lo, hi) -> Case:
                 f"text={raw!r} range={lo}-{hi}", oracle_fail=fail, sig="raw|slice")
 
 
+def pyslice_case(text: str, lo: int, hi: int) -> Case:
+    """Python's own `text[lo:hi]` (arbitrary ints) against Model/PySlice.lean; the oracle spells the rule out"""
+    g = text[lo:hi]
+    n = len(text)
+    a = max(lo + n, 0) if lo < 0 else min(lo, n)
+    b = max(hi + n, 0) if hi < 0 else min(hi, n)
+    want = "".join(text[k] for k in range(a, b))
+    fail = None if g == want else f"text[{lo}:{hi}] = {g!r}, index adjustment gives {want!r}"
+    return Case("py-slice", dumps([A("o-pyslice"), text, lo, hi]), dumps([A("ok"), g]), a < b,
+                f"text={text!r}[{lo}:{hi}]", oracle_fail=fail, sig="raw|pyslice")
+
+
 def origin_case(kind: str, ops: list, S: Sources) -> Case:
     if kind == "merge":
         fn = lambda: O.merge_origins(*ops)  # noqa
@@ -635,6 +672,16 @@ def _raw(rng: random.Random, thorough: bool):
         t = "".join(rng.choice("ab \né中\U0001F600\"\\") for _ in range(rng.randint(0, 12)))
         lo = rng.randint(0, 14)
         yield raw_case(t, lo, lo + rng.randint(0, 14))
+    # ---- Python slicing for arbitrary ints (negative, beyond the end, reversed): the spec `pySlice` that
+    #      Props/C15Boundary.lean proves equal to the model's `slice` on every range the constructors accept
+    for t in ["", "a", "abc", "héllo", "\U0001F600xy中"]:
+        for lo in range(-7, 8):
+            for hi in range(-7, 8):
+                yield pyslice_case(t, lo, hi)
+    for _ in range(100 if not thorough else 3000):
+        t = "".join(rng.choice("ab \né中\U0001F600") for _ in range(rng.randint(0, 9)))
+        yield pyslice_case(t, rng.choice([-1, 1]) * rng.getrandbits(rng.choice([2, 4, 70])),
+                           rng.choice([-1, 1]) * rng.getrandbits(rng.choice([2, 4, 70])))
 
 
 def _origins(rng: random.Random, thorough: bool):
